@@ -515,6 +515,12 @@ func ruleC09Sem(e *Env) {
 		ruleC09SemOn(e, dp, sums, vr.name, vr.layout, vr.ruleSet, basicBit)
 	}
 	dateLimitOn = false
+	// the year widths in between (a branch taken for 5 to 8 year digits only is entered in none of the readings above)
+	for w := 5; w <= 8; w++ {
+		y := strings.Repeat("0", w)
+		ruleC09SemOn(e, dp, sums, fmt.Sprintf(" (%d-digit year)", w), y+"-00-00", false, basicBit)
+		ruleC09SemOn(e, dp, sums, fmt.Sprintf(" (%d-digit year, basic)", w), y+"0000", false, basicBit)
+	}
 }
 
 // dateLimitOn selects the world the date parser's tables are extracted in: false — MaxInputLength is 0 (disabled);
